@@ -17,6 +17,8 @@
            9 Inv(u8)       zeroize -> 0xFF,          DEFAULT = default() = 0
            10 Page {tag, fill: [u8; 4999]}  zeroize -> all zero, DEFAULT = default() = all zero
            11 Cnt(u8)      zeroize -> x + 1 (counts its wipes: not idempotent), DEFAULT = default() = 0
+           13 Lv(u8)       zeroize -> 0,             DEFAULT = default() = 50   (Copy + Default plain data)
+           op 5: as op 0, with `arr.zeroize()` written in method-call syntax on a concrete array type
            element code: little-endian packing of the fields (u16 fields: a + 65536 b;
            byte arrays: b0 + 256 b1 + 65536 b2)
    observables: [N; elements ...] *)
@@ -31,6 +33,7 @@ Definition default_of (ty : Z) : Z :=
   if ty =? 4 then 7 + 9 * 65536
   else if (ty =? 5) || (ty =? 8) then 3 + 5 * 65536
   else if ty =? 6 then 90
+  else if ty =? 13 then 50
   else if ty =? 7 then 90 + 90 * 256 + 90 * 65536
   else 0.
 
@@ -40,7 +43,7 @@ Definition run_c19 (case : list Z) : list Z :=
     let '(dz, prior) := take_list (znat nd) rest in
     let ds := map (fun z => negb (z =? 0)) dz in
     let n := Z.of_nat (val ds) in
-    if op =? 0 then
+    if (op =? 0) || (op =? 5) then
       match fill ds prior with
       | Some (t, []) =>
         match zeroize_arr (zero_of ty) ds t with
